@@ -27,15 +27,16 @@ func (e *Error) updateFromTokenIfNeeded(template *Template, t *Token) *Error {
 		e.Template = template
 	}
 
-	if e.Token == nil {
+	// An error that has a position of its own (a lexer error, possibly of another template that
+	// is being included) keeps it, and is not given a token from somewhere else: the message
+	// shows position and token together ("Line 2 Col 6 near 'x'").
+	if e.Token == nil && e.Line <= 0 {
 		e.Token = t
-		if e.Line <= 0 {
-			e.Line = t.Line
-			e.Column = t.Col
-			if e.Filename == "" {
-				// the position is one in the template the token was read from
-				e.Filename = t.Filename
-			}
+		e.Line = t.Line
+		e.Column = t.Col
+		if e.Filename == "" {
+			// the position is one in the template the token was read from
+			e.Filename = t.Filename
 		}
 	}
 
